@@ -1261,7 +1261,11 @@ def like_case(draw, tier='quick'):
         )['cells'][-1]
         if eff.get('fill') is None:
             how = d(st.sampled_from(['mat+rho', 'mat+rho', 'rho', 'rho',
-                                     'none']))
+                                     'none', 'void']))
+            if how == 'void' and eff['mat'] != 0:
+                # MAT=0: the copy of a cell with a material is void
+                but['mat'] = 0
+                b.labels.add('like:mat=0')
             if how == 'mat+rho' or (how == 'rho' and eff['mat'] == 0):
                 m, rho = b.material()
                 if m != 0:
